@@ -5,6 +5,7 @@ from conf.common import *  # noqa
 
 FULL_CURVES = ["bn254", "bls12-381"]
 LIGHT_CURVES = ["bw6-761", "bls24-315"]
+EXTRA_CURVES = ["bls12-377", "bls24-317", "bw6-633"]   # same (lighter) registry; quick: sequential + concurrent, thorough: everything
 SMALL = ["koalabear", "babybear", "goldilocks"]
 GROUPS = FULL_CURVES + LIGHT_CURVES + SMALL + ["misc"]
 
@@ -20,8 +21,18 @@ FIRST_USE = (
 RACE_ENV = {"GORACE": "halt_on_error=1"}
 
 
+FIRST_USE_EXTRA = ["%s/%s" % (c, g) for c in EXTRA_CURVES
+                   for g in ("twistededwards.initOnce", "mimc.once", "mimc.GetConstants", "poseidon2.GetDefaultParameters",
+                             "polynomial.lagrangeBasis", "pool.BigInt", "fptower.bigIntPool")]
+
+
 def _first_use_shards(tier):
-    return [dict(name=re.sub(r"[^A-Za-z0-9_.-]", "_", n), inst="^" + re.escape(n) + "$") for n in FIRST_USE]
+    names = FIRST_USE + (FIRST_USE_EXTRA if tier == "thorough" else [])
+    return [dict(name=re.sub(r"[^A-Za-z0-9_.-]", "_", n), inst="^" + re.escape(n) + "$") for n in names]
+
+
+def _race_extra_shards(tier):
+    return [dict(name=c, inst="^" + re.escape(c) + "$", env={}) for c in EXTRA_CURVES]
 
 
 def _race_curve_shards(tier):
@@ -61,6 +72,13 @@ PROP = dict(
         "exempt from scribbling, reported as notes: receiver accessors of caller-owned objects that hand out the receiver's storage "
         "(fft.Domain.Twiddles/TwiddlesInv/CosetTable/CosetTableInv: undocumented, probed; iop.Polynomial.Coefficients: documented "
         "'returns a slice on the underlying data structure'); types exposing exported fields only (kzg.SRS)",
+        "purity is checked against EVERY shared object of the group after EVERY call (not only the callee's arguments): an argument "
+        "leaked into a pool or cache by one call and overwritten by a later call of another entry point is attributed at that later call; "
+        "one history in four (and the concurrent mode 'pool') is drawn only among entry points borrowing from process-wide pools "
+        "(GT Exp/CyclotomicExp/ExpGLV with positive and negative shared exponents, field Exp/Sqrt/Legendre/Text/SetString/SetBigInt)",
+        "a call that never returns yields no result: a watchdog (240 s, 10^4..10^5 times the duration of any entry) reports it with the dump of "
+        "the goroutines blocked inside the library instead of letting the job end as an inconclusive timeout; it is not used as a timing oracle",
+        "bls12-377, bls24-317, bw6-633 run the lighter registry sequentially and concurrently in quick; -race and first-use jobs for them in thorough",
         "goroutine scheduling is the only input not controlled by the rapid seed; a race needing an interleaving the runtime does not "
         "produce under the varied g / GOMAXPROCS / yields / -race instrumentation can be missed; timing is never used as a signal",
         "shared inputs are a deterministic function of VERIF_SEED (SHA-256 counter stream); ECDSA signatures are produced once with the "
@@ -74,7 +92,7 @@ PROP = dict(
         "the portable Go kernels are instrumented (small fields + misc in full, bn254 reduced in quick; all four curves reduced in thorough)",
         "every entry point is also exercised deterministically (sweep): 3 interleaved sequential calls and 4 concurrent goroutines x 2 calls",
     ],
-    mandatory_all=["scribble_returned", "g=2", "g=3", "g=8", "g=64", "P=1", "P=2", "P=3", "P=8", "P=16", "k=2", "k=5", "mode:same", "mode:pair", "mode:mix"],
+    mandatory_all=["scribble_returned", "pool_interleave", "mode:pool", "g=2", "g=3", "g=8", "g=64", "P=1", "P=2", "P=3", "P=8", "P=16", "k=2", "k=5", "mode:same", "mode:pair", "mode:mix"],
     jobs=[
         # lazily initialised Edwards parameters: every point method cold vs warm, one fresh process per method (shared with C02)
         dict(name="coldstart-edwards", pkg="c02/uninit", run="^TestC02_ColdStart$", rapid=False),
@@ -92,6 +110,11 @@ PROP = dict(
              env=RACE_ENV, checks=(20, 300), timeout=(1800, 7200), weight=11),
         dict(name="race-seq", pkg="c18", run="^TestC18_Sequential$", race=True, shards=GROUPS, env=RACE_ENV,
              checks=(15, 300), timeout=(1800, 5400), weight=7, tiers=("thorough",)),
+        # the three remaining pairing curves: a change confined to one curve's generated copy must not be invisible
+        dict(name="seq-extra", pkg="c18", run="^TestC18_Sequential$", shards=EXTRA_CURVES, checks=(300, 8000), timeout=(1800, 5400), weight=5),
+        dict(name="conc-extra", pkg="c18", run="^TestC18_Concurrent$", shards=EXTRA_CURVES, checks=(100, 3000), timeout=(1800, 5400), weight=5),
+        dict(name="race-extra", pkg="c18", run="^TestC18_Concurrent$", race=True, shards=_race_extra_shards, env=RACE_ENV,
+             checks=(30, 600), timeout=(1800, 5400), weight=9, tiers=("thorough",)),
         dict(name="conc", pkg="c18", run="^TestC18_Concurrent$", shards=GROUPS, checks=(400, 5000), timeout=(1800, 5400), weight=5),
         dict(name="seq", pkg="c18", run="^TestC18_Sequential$", shards=FULL_CURVES + SMALL + ["misc"], checks=(1500, 20000), timeout=(1800, 5400), weight=4),
         dict(name="seq-light", pkg="c18", run="^TestC18_Sequential$", shards=LIGHT_CURVES, checks=(800, 8000), timeout=(1800, 5400), weight=5),
@@ -102,14 +125,14 @@ PROP = dict(
 )
 
 PROP.update(
-    technique=("property-based testing over call histories and schedules: a registry of ~1100 exported entry points closed over shared "
-               "argument objects (4 curves, 3 small fields, hash registry, bandersnatch, secp256k1), rapid-drawn histories and "
+    technique=("property-based testing over call histories and schedules: a registry of ~1800 exported entry points closed over shared "
+               "argument objects (7 pairing curves, 3 small fields, hash registry, bandersnatch, secp256k1), rapid-drawn histories and "
                "goroutine mixes, deep argument snapshots, the Go race detector, fresh-process first-use races"),
     level_text=("Generated histories and schedules against three oracles (argument snapshots, byte-identical results, race detector). "
                 "Exploration, not proof: the quantifiers are over histories and interleavings; histories are sampled by rapid, "
                 "interleavings are those the Go scheduler yields under varied goroutine counts, GOMAXPROCS, task-count options, "
                 "drawn yields and -race instrumentation."),
     level_note=("no deterministic scheduler: a race needing a rare interleaving can be missed; sizes are small (SRS <= 128, MSM <= 300 "
-                "points, FFT <= 512); bls12-377, bls24-317, bw6-633, grumpkin, stark-curve are covered only by the regression test "
-                "and the hash registry"),
+                "points plus one 4500-point MSM with skewed scalars on bn254/bls12-381, FFT <= 512); grumpkin and stark-curve are "
+                "covered only by the hash registry and the modulus getters"),
 )
